@@ -99,7 +99,9 @@ fn run_item(it: &Item) -> Res {
                         break;
                     }
                     if a.1 + a.2 > b.1 && a.2 > 0 && b.2 > 0 {
-                        r.violations.push((format!("{fam}|overlap|{}+{}", name_class(&a.0), name_class(&b.0)), format!("{}: entry {:?} {}+{} overlaps {:?} {}+{} (independent parser: byte {} is in {})", it.variant, a.0, a.1, a.2, b.0, b.1, b.2, b.1, elem_at(&parsed, b.1 as usize))));
+                        let (na, nb) = (name_class(&a.0), name_class(&b.0));
+                        let pair = if na == "C2PA" || nb == "C2PA" { "C2PA+other".to_string() } else { format!("{na}+{nb}") };
+                        r.violations.push((format!("{fam}|overlap|{pair}"), format!("{}: entry {:?} {}+{} overlaps {:?} {}+{} (independent parser: byte {} is in {})", it.variant, a.0, a.1, a.2, b.0, b.1, b.2, b.1, elem_at(&parsed, b.1 as usize))));
                         bad = true;
                         break;
                     }
@@ -133,7 +135,15 @@ fn run_item(it: &Item) -> Res {
                     }
                     let gap = &it.bytes[gs as usize..ge as usize];
                     let at_elem_start = parsed.as_ref().map(|p| p.elems.iter().any(|e| e.start == gs as usize)).unwrap_or(false);
-                    let cls = if fam == "jpeg" && at_elem_start && gap.iter().all(|b| *b == 0xFF) { "fill-bytes-before-marker".to_string() } else { elem_at(&parsed, gs as usize) };
+                    let here = elem_at(&parsed, gs as usize);
+                    let cls = if fam == "jpeg" && at_elem_start && gap.iter().all(|b| *b == 0xFF) {
+                        "fill-bytes-before-marker".to_string()
+                    } else if fam == "jpeg" && ge == n && at_elem_start && here != "trailing" && here != "EOI" {
+                        // the list simply ends at a segment the handler's reader gave up on, and get_box_map still returns Ok
+                        "map-stops-at-unreadable-segment".to_string()
+                    } else {
+                        here
+                    };
                     r.violations.push((format!("{fam}|uncovered|{cls}"), format!("{}: bytes {gs}..{ge} of {n} belong to no entry and are not part of the manifest container (independent parser: {})", it.variant, elem_at(&parsed, gs as usize))));
                     bad = true;
                     break;
@@ -370,6 +380,14 @@ fn main() {
         v.extend_from_slice(&b[20..]);
         add("tiny_short_app11.jpg", "jpg", v);
     }
+    let directed_bad_sof = {
+        // SOF0 at offset 89 (13 bytes) replaced by a 1-byte frame header: lengths stay consistent, content is unreadable
+        let b = assets::tiny_jpeg(None, false, &[]);
+        let mut v = b[..89].to_vec();
+        v.extend_from_slice(&[0xFF, 0xC0, 0, 3, 8]);
+        v.extend_from_slice(&b[102..]);
+        v
+    };
     add("tiny_rst_trailing.jpg", "jpg", assets::tiny_jpeg(None, true, b"\0\0after-eoi"));
     add("tiny_text_trailing.png", "png", assets::tiny_png(true, b"trailing after IEND"));
     add("tiny_rich_trailing.gif", "gif", kit::rich_gif(false, b"trailing"));
@@ -390,7 +408,7 @@ fn main() {
             }
         }
     }
-    let mut items: Vec<Item> = Vec::new();
+    let mut items: Vec<Item> = vec![Item { name: "tiny.jpg".into(), format: "jpg", variant: "mutant:directed-unreadable-sof:base".into(), bytes: directed_bad_sof }];
     for a in &base {
         let it = Item { name: a.name.clone(), format: a.format, variant: "base".into(), bytes: a.bytes.clone() };
         items.push(it.clone());
